@@ -783,7 +783,10 @@ func init() {
 			// deviations
 			for d := rng.Intn(3); d > 0 && ln > 0; d-- {
 				i := rng.Intn(ln)
-				switch rng.Intn(12) {
+				switch rng.Intn(13) {
+				case 12:
+					// a command that differs only by a Unicode case-folding partner of a lower-case letter is another command
+					links[i].Cmd = foldFlip(links[i].Cmd)
 				case 0:
 					links[i].Iss = names[rng.Intn(len(names))]
 				case 1:
@@ -1219,4 +1222,17 @@ func init() {
 		}
 		return nil
 	}
+}
+
+// foldFlip replaces the first character that has a DIFFERENT lower-case case-folding partner by that partner.
+func foldFlip(cmd []string) []string {
+	partner := map[string]string{"\u00b5": "\u03bc", "\u03bc": "\u00b5", "\u03c2": "\u03c3", "\u03c3": "\u03c2", "\u017f": "s", "s": "\u017f"}
+	out := append([]string{}, cmd...)
+	for i, c := range out {
+		if p, ok := partner[c]; ok {
+			out[i] = p
+			return out
+		}
+	}
+	return out
 }
